@@ -102,17 +102,25 @@ def _r142(ctx: Ctx) -> None:
             defs.setdefault(n.targets[0].id, []).append(n)
     ctx.need('i_task' in defs and len(defs['i_task']) == 1, 'R14.2', site, 'i_task definition not found')
     it_def = defs['i_task'][0]
-    txt = ast.unparse(it_def.value).replace(' ', '')
     loops = [n for n in ast.walk(fn) if isinstance(n, ast.For) and isinstance(n.target, ast.Name)
              and any(it_def is x for x in ast.walk(n))]
-    ok = bool(loops) and txt in ('n_cores*i_node+i_core', 'i_node*n_cores+i_core', 'i_core+n_cores*i_node',
-                                 'i_core+i_node*n_cores') and loops[0].target.id == 'i_core' \
-        and ast.unparse(loops[0].iter).replace(' ', '') == 'range(n_cores)'
     node_def = defs.get('i_node', [None])[0]
-    ok = ok and node_def is not None and ast.unparse(node_def.value).replace(' ', '') == 'job_idx-1'
+    # i_task as a polynomial in (n_cores, job_idx, loop variable)
+    from ..domains import Poly
+    from ..interp import Env as _Env, Interp as _Interp
+    it_ = _Interp(m)
+    e = _Env(mi)
+    lv = loops[0].target.id if loops else 'i_core'
+    e.vars.update({'n_cores': Poly.var('C'), 'job_idx': Poly.var('J'), lv: Poly.var('c'), 'n_nodes': Poly.var('N')})
+    if node_def is not None:
+        e.vars['i_node'] = it_.ev(node_def.value, e)
+    val = it_.ev(it_def.value, e)
+    want = Poly.var('C') * (Poly.var('J') - 1) + Poly.var('c')
+    ok = bool(loops) and isinstance(val, Poly) and val == want \
+        and ast.unparse(loops[0].iter).replace(' ', '') in ('range(n_cores)', 'range(0,n_cores)')
     ctx.ob('R14.2', site_of(mi, it_def), 'run_parallel: task index = n_cores*(job_idx-1) + i_core, i_core in range(n_cores)',
-           ok, f'{norm_stmt(it_def)}; loop {norm_stmt(loops[0].iter) if loops else None}; '
-               f'i_node = {ast.unparse(node_def.value) if node_def is not None else None}', key='run_parallel|task-index')
+           ok, f'i_task = {val!r} with C=n_cores, J=job_idx, c=loop variable (expected C*J - C + c); loop over '
+               f'{norm_stmt(loops[0].iter) if loops else None}', key='run_parallel|task-index', facts=repr(val))
     # file names depend on i_task
     for var in ('result_json_file', 'log_file'):
         ctx.need(var in defs, 'R14.2', site, f'{var} not found')
